@@ -62,7 +62,8 @@ class Prop(PropBase):
     props_file = 'theories/Props/C13.v'
     n_cases = {'quick': 360, 'thorough': 14000}
     rule = ('cases = (a) schedules: 2-3 real threads, 1-3 operations each (get with succeeding / '
-            'raising creator, clear) on 1-3 keys of one real Cache (directly, or behind '
+            'raising creator, clear) on 1-3 keys of one real Cache (directly, as the real StepCache / '
+            'BackoffCache - whose clear() rebinds the dict -, or behind '
             'Loader.get_pipeline with (parent, name) requests incl. the ones that collided under the pre-0c7650b joined-string key), an '
             'arbitrary interleaving at instruction granularity (lock-acquire, membership test, load, '
             'creator-enter, creator-exit, store, release, return) followed by a round-robin suffix '
@@ -156,10 +157,30 @@ class Prop(PropBase):
                 ops.append(['get', r[0], r[1], ok])
         return ops
 
+    def gen_parked_case(self, rng, target, reqs):
+        """a look-up that has entered get() but not yet taken the lock, then a COMPLETED clear(),
+        optionally another look-up of the same key, then the parked look-up proceeds"""
+        r = reqs[0]
+        get = ['get', r[0], r[1], True]
+        pre, post = rng.random() < 0.5, rng.random() < 0.6
+        progs = [[get] + ([get] if rng.random() < 0.3 else []),
+                 ([get] if pre else []) + [['clear']] + ([get] if post else [])]
+        sched = ([1] * 8 if pre else []) + [0] + [1] * 4 + ([1] * 8 if post else [])
+        if rng.random() < 0.4:
+            progs.append([['get', r[0], r[1], rng.random() < 0.8]])
+            sched += [2] * rng.randint(0, 8)
+        n = len(progs)
+        total = sum(len(p) for p in progs)
+        sched += list(range(n)) * (10 * total + 5)
+        return {'kind': 'sched', 'target': target, 'nc': False, 'progs': progs, 'sched': sched,
+                'complete': True, 'shape': 'parked-before-lock-then-clear'}
+
     def gen_sched_case(self, rng):
-        target = rng.choice(['cache', 'cache', 'loader', 'loader', 'loader'])
+        target = rng.choice(['cache', 'cache', 'loader', 'loader', 'loader', 'backoff', 'backoff', 'step'])
         n = rng.choice([2, 2, 3])
-        if target == 'cache':
+        if target in ('backoff', 'step'):
+            reqs = [[None, k] for k in rng.sample(['m1', 'm2', 'pkg.mod'], rng.choice([1, 2, 2]))]
+        elif target == 'cache':
             reqs = [[None, k] for k in rng.sample(['a', 'b', 'c', 'a+b'], rng.choice([1, 2, 2, 3]))]
         elif rng.random() < 0.25:
             reqs = list(rng.choice(COLLIDING))
@@ -167,6 +188,8 @@ class Prop(PropBase):
                 reqs.append(rng.choice(PLAIN_REQS))
         else:
             reqs = rng.sample(PLAIN_REQS, rng.choice([1, 2, 2, 3]))
+        if rng.random() < 0.25:
+            return self.gen_parked_case(rng, target, reqs)
         progs = [self.gen_ops(rng, reqs, rng.choice([1, 2, 2, 3]), p_bad=0.15 if target == 'loader' else 0.0)
                  for _ in range(n)]
         total = sum(len(p) for p in progs)
@@ -303,6 +326,8 @@ class Prop(PropBase):
             if k in kinds:
                 tags.append(f'has:{k}')
         if case['kind'] == 'sched':
+            if case.get('shape'):
+                tags.append('shape:' + case['shape'])
             tags.append('complete' if case.get('complete') else 'cut-off')
             tags.append('lock-contended' if obs.get('blocked_steps') else 'lock-uncontended')
             tags.append(f'sched-len:{min(len(case["sched"]) // 40 * 40, 200)}')
